@@ -3,6 +3,7 @@ import Xrl.Core.Dump
 import Xrl.Core.Proto
 import Xrl.Gen.Load
 import Xrl.Gen.Dispatch
+import Xrl.Spec.Dispatch
 open Xrl
 
 partial def loop (T : Tables Float) (h : IO.FS.Stream) (out : IO.FS.Stream) : IO Unit := do
@@ -12,7 +13,8 @@ partial def loop (T : Tables Float) (h : IO.FS.Stream) (out : IO.FS.Stream) : IO
   if t.size = 0 then loop T h out else
   let fn := t[0]!
   let args := t.extract 1 t.size
-  match dispatchGen T fn args with
+  let r := if fn.startsWith "spec." then dispatchSpec T fn args else dispatchGen T fn args
+  match r with
   | some s => out.putStrLn s
   | none => out.putStrLn "bad-op"
   loop T h out
